@@ -516,7 +516,7 @@ func ellipses() []ell {
 	var out []ell
 	for _, g := range [][3]float64{{2, 2, 0}, {3, 1.5, 0}, {3, 1.5, 30}} {
 		for _, a0 := range []float64{0, 90, 180, 270, 45} {
-			for _, n := range []int{2, 4} {
+			for _, n := range []int{2, 3, 4} {
 				for _, sw := range []bool{true, false} {
 					out = append(out, ell{g[0], g[1], g[2], a0, n, sw})
 				}
@@ -587,7 +587,7 @@ func families(tier string) []fw.Family {
 		},
 		Desc: func(i int64) string { return oracle.Fmt(oracle.ClosedData(nest[i]...)) + " Filling + point queries" }}
 	ells := ellipses()
-	ellFam := fw.Family{Name: "ellipses drawn with 2 or 4 arcs, both directions, 5 start angles", N: int64(len(ells)),
+	ellFam := fw.Family{Name: "ellipses drawn with 2, 3 or 4 arcs, both directions, 5 start angles", N: int64(len(ells)),
 		Check: func(i int64, r *fw.R) {
 			checkShape(r, ells[i].data(), false)
 			checkCCWCurved(r, ells[i].data())
